@@ -76,10 +76,12 @@ def run(pid, tier, deadline_s):
     locpath = os.path.join(ROOT, "build", "locales"); trloc = None
     if os.path.isdir("/usr/lib/locale/C.utf8"):
         import shutil
-        if not os.path.isdir(os.path.join(locpath, "tr_TR.UTF-8")): os.makedirs(locpath, exist_ok=True); shutil.copytree("/usr/lib/locale/C.utf8", os.path.join(locpath, "tr_TR.UTF-8"), dirs_exist_ok=True)
-        trloc = "tr_TR.UTF-8"
+        for nm in ("tr_TR.UTF-8", "lt_LT.UTF-8", "az_AZ.UTF-8"):      # Turkish, Lithuanian, Azeri: the three names the fold code looks for
+            if not os.path.isdir(os.path.join(locpath, nm)): os.makedirs(locpath, exist_ok=True); shutil.copytree("/usr/lib/locale/C.utf8", os.path.join(locpath, nm), dirs_exist_ok=True)
+        trloc = ("tr_TR.UTF-8", "lt_LT.UTF-8", "az_AZ.UTF-8")
     if pid in SPECIAL_PROPS and trloc:
-        for v in variants: tasks.append(("special:unicode", v, trloc, 0, 1))
+        for v in variants:
+            for nm in trloc: tasks.append(("special:unicode", v, nm, 0, 1))
     if pid in SPECIAL_PROPS:
         for v in variants:
             for loc in ("C", "C.UTF-8"):
